@@ -444,7 +444,7 @@ func ruleSASLDecode(c *Ctx) {
 // or reads again (on a dead connection that loop never ends and the goroutine outlives the connection).
 func ruleAuthReadFailureEnds(c *Ctx) {
 	R := c.R
-	R.Rule("R-auth-read-failure-ends", "E2 never-after under hypothesis", "after a failed read inside the SASL exchange handleAuth performs no further mechanism step, challenge or read", 1)
+	R.Rule("R-auth-read-failure-ends", "E2 never-after under hypothesis", "after a failed read inside the SASL exchange handleAuth performs no further mechanism step, read or reply: the command loop, whose next read fails the same way, gives the one answer (421 on a timeout) and ends the connection", 1)
 	f := c.A.Func("(*Conn).handleAuth")
 	if f == nil {
 		return
@@ -456,8 +456,8 @@ func ruleAuthReadFailureEnds(c *Ctx) {
 		}
 		n++
 		site := in
-		c.obNeverH("no SASL step, challenge or read after a failed read", f, func(x ssa.Instruction) bool { return x == site },
-			append(append([]string{}, lineReads...), "cb:sasl.Server.Next", "reply:334", "st:Conn.didAuth=true"), describe(in.(ssa.Value))+"#1 != nil")
+		c.obNeverH("no SASL step, reply or read after a failed read", f, func(x ssa.Instruction) bool { return x == site },
+			append(append([]string{}, lineReads...), "cb:sasl.Server.Next", "reply", "st:Conn.didAuth=true"), describe(in.(ssa.Value))+"#1 != nil")
 	})
 	R.Ob("(*Conn).handleAuth/reads continuation lines", c.P.Pos(f.Pos()), n >= 1, fmt.Sprintf("%d reads", n))
 }
